@@ -14,7 +14,7 @@ use crate::run::{finish, preflight, Ctx, Report, Tally, Tier};
 const PLACEHOLDER: &str = "5167504c414345484f4c4445525f5349475f5f5f5f5f5f5f5f5f5f5f5f5f5f5f";
 const BAD_SIG: &str = "00000000000000000000000000000000ffffffffffffffffffffffffffffffff";
 
-pub const INPUTS: [&str; 14] = [
+pub const INPUTS: [&str; 20] = [
     "authorization-header",
     "credential-in-header",
     "signedheaders-in-header",
@@ -29,6 +29,14 @@ pub const INPUTS: [&str; 14] = [
     "q-signature",
     "q-token",
     "both-carriers",
+    // presigned form POST with folding on: the repeated parameter's later copies travel in the body, which counts as
+    // appended to the URL query, so the URL's copy is the first
+    "qb-algorithm",
+    "qb-credential",
+    "qb-date",
+    "qb-signedheaders",
+    "qb-signature",
+    "qb-token",
 ];
 
 fn plain_query(pairs: &[(String, String)]) -> Vec<u8> {
@@ -264,6 +272,61 @@ fn build(input: &str, copies: usize, k: usize, r: &mut Rng, c: &Ctxt) -> Option<
             url.push(("z".into(), "last".into()));
             documented = 0;
         }
+        "qb-algorithm" | "qb-credential" | "qb-date" | "qb-signedheaders" | "qb-signature" | "qb-token" => {
+            cfg.fold = true;
+            headers.push((b"x-extra".to_vec(), b"v".to_vec()));
+            headers.push((b"content-type".to_vec(), r.pick_bytes(&[b"application/x-www-form-urlencoded", b"application/x-www-form-urlencoded; charset=utf-8", b"application/x-www-form-urlencoded;charset=UTF-8"]).to_vec()));
+            eff_signed = signed.clone();
+            let alt_signed = vec!["host".to_string(), "x-extra".to_string()];
+            let mut form: Vec<(String, String)> = Vec::new();
+            let mut one = |name: &str, good: String, bad: &dyn Fn(usize) -> String, url: &mut Vec<(String, String)>, dup: bool| {
+                if dup {
+                    for i in 0..copies {
+                        let v = if i == k {
+                            good.clone()
+                        } else {
+                            bad(i)
+                        };
+                        if i == 0 {
+                            url.push((name.to_string(), v));
+                        } else {
+                            form.push((name.to_string(), v));
+                        }
+                    }
+                } else {
+                    url.push((name.to_string(), good));
+                }
+            };
+            one("X-Amz-Algorithm", "AWS4-HMAC-SHA256".into(), &|i| if i % 2 == 0 { "AWS4-HMAC-SHA512".into() } else { "AWS4".into() }, &mut url, input == "qb-algorithm");
+            one("X-Amz-Credential", good_cred.clone(), &|i| if i % 2 == 0 { c.cred(&c.ak, t_good, "xx-wrong-1") } else { c.cred(&c.ak, t_good.plus_s(-86400), &c.cfg.region) }, &mut url, input == "qb-credential");
+            one("X-Amz-Date", t_good.compact(), &|i| t_other.plus_s(i as i64).compact(), &mut url, input == "qb-date");
+            one("X-Amz-SignedHeaders", signed.join(";"), &|_| alt_signed.join(";"), &mut url, input == "qb-signedheaders");
+            one("X-Amz-Signature", PLACEHOLDER.into(), &|_| BAD_SIG.into(), &mut url, input == "qb-signature");
+            if input == "qb-token" {
+                url.push(("X-Amz-Security-Token".into(), gen_token(r)));
+                for _ in 1..copies {
+                    form.push(("X-Amz-Security-Token".into(), gen_token(r)));
+                }
+                if k != 0 {
+                    return None;
+                }
+            }
+            // 0–9 further body parameters with distinct names (more or fewer names than the URL has), placed anywhere
+            // among the copies without changing the copies' relative order
+            let extra = r.usize_below(10);
+            for e in 0..extra {
+                let pos = r.usize_below(form.len() + 1);
+                form.insert(pos, (format!("p{}", e), format!("v{}", r.below(100))));
+            }
+            if r.coin() {
+                url.push(("z".into(), "last".into()));
+            }
+            body = plain_query(&form);
+            if body.is_empty() {
+                body = b"only=body".to_vec();
+            }
+            documented = 0;
+        }
         "both-carriers" => {
             // four shapes: header + query algorithm parameter in the URL / in a folded body; valid signature on either side
             headers.push((b"x-amz-date".to_vec(), t_good.compact().into_bytes()));
@@ -383,6 +446,7 @@ fn shard(seed: u64, shard: u64, n: u64) -> Tally {
         for h in wire.headers.iter_mut() {
             replace_all(&mut h.1, PLACEHOLDER.as_bytes(), sig.as_bytes());
         }
+        replace_all(&mut wire.body, PLACEHOLDER.as_bytes(), sig.as_bytes());
         let case = Case {
             wire,
             cfg,
@@ -401,7 +465,7 @@ fn shard(seed: u64, shard: u64, n: u64) -> Tally {
             t.violate(v);
         }
         // the reference model's own selection rules must reproduce the documented choice: oracle self-check
-        let expect_accept = k == documented || matches!(input, "token-header" | "q-token");
+        let expect_accept = k == documented || matches!(input, "token-header" | "q-token" | "qb-token");
         match (&j.analysis.verdict, expect_accept) {
             (Verdict::Accept, true) | (Verdict::Reject { .. }, false) => {}
             (Verdict::DontCare { why, .. }, _) => {
@@ -433,7 +497,7 @@ fn shard(seed: u64, shard: u64, n: u64) -> Tally {
                 if input == "both-carriers" && j.analysis.stage() == Stage::Carrier {
                     t.count("both_carriers_refused");
                 }
-                if rec.calls() == 1 && matches!(input, "token-header" | "q-token") {
+                if rec.calls() == 1 && matches!(input, "token-header" | "q-token" | "qb-token") {
                     t.count("token_selection_checked_in_provider_log");
                 }
                 t.nontrivial(case.hash());
@@ -465,7 +529,7 @@ pub fn run(tier: Tier) -> i32 {
     for input in INPUTS {
         let shapes: Vec<(usize, usize)> = match input {
             "both-carriers" => (0..4).map(|k| (k, 4)).collect(),
-            "token-header" | "q-token" => vec![(0, 2), (0, 3)],
+            "token-header" | "q-token" | "qb-token" => vec![(0, 2), (0, 3)],
             "date-alongside-x-amz-date" => vec![(0, 2), (1, 2), (0, 3), (1, 3)],
             _ => vec![(0, 2), (1, 2), (0, 3), (1, 3), (2, 3)],
         };
